@@ -78,6 +78,9 @@ def piPtrOps (cfg : PiPtrCfg) : SchemeOps where
     pure [a, b]
 
 def ct14Ops (cfg : CT14Cfg) : SchemeOps where
+  hyps lv key db t absent := match key1 key with
+    | .ok K => CT14.hypsB cfg lv K db t absent
+    | .error _ => false
   keyGen t := do let (k, t') ← CT14.keyGen cfg t; pure ([k], t')
   setup lv key db t := do
     let K ← key1 key
